@@ -531,13 +531,15 @@ class Gen:
                 return ('constant', self.tag(), self.scalar())
             if k == 13 and self.ok('argument'):
                 return ('argument', r.range(0, 2), self.tag())
-            if k in (14, 15) and self.ok('backref'):
+            if k in (14, 15) and self.ok('backref') and not env.get('smallint'):
                 return ('backref', r.range(1, 3), self.tag())
             if k in (16, 17) and self.ok('backmatch'):
                 return ('backmatch', r.choice([0, 1, 1, 2, 3]))
             if k == 18 and self.ok('readint'):
                 signed = r.chance(1, 2)
                 width = r.choice([0, 1, 1, 2, 2, 3, 4, 6, 7, 8])
+                if env.get('smallint'):
+                    width = r.choice([0, 1, 1])      # a lenprefix count: keep the repetition count small
                 if signed and width == 0:
                     width = 1     # (int 0): shift by 64 in peg_convert_u64_s64 (UBSan); covered by its own corpus case
                 return ('readint', width, signed, r.chance(1, 2), self.tag())
@@ -630,7 +632,7 @@ class Gen:
                 # length pattern: something that captures a small integer first, most of the time
                 lp = r.below(5)
                 if lp == 0:
-                    n = P()
+                    n = self.patt(d - 1, dict(env, smallint=True))
                 elif lp == 1:
                     n = ('readint', 1, False, False, 0)
                 elif lp == 2:
@@ -646,7 +648,7 @@ class Gen:
                 return ('split', P(), P())
             if k == 43 and self.ok('til'):
                 return ('til', P(), P())
-            if k == 44 and self.ok('number'):
+            if k == 44 and self.ok('number') and not env.get('smallint'):
                 return ('number', r.choice([0, 0, 2, 10, 16]), self.tag(), P())
             if k == 45 and self.ok('grammar') and d >= 2:
                 return self.grammar(d - 1, env)
